@@ -90,6 +90,12 @@ CHECKS.update({
         note='Trusted: symnp engine incl. searchsorted/isclose/linspace rules, z3. Preconditions stated: extent >= 1, |limits| <= 64, nodes on a limit or >= 1/8 away (np.isclose window).',
         ref='DESIGN.md section 4 C14'),
 })
+CHECKS.update({
+    'C17': dict(
+        text='np.<ufunc>(...) and the methods reduce / accumulate / outer / at / reduceat, plus the legacy x.ufuncs interface, are executed on tensor, discretized and power-space elements holding solver variables (real, float32-claimed, int64); the result terms must equal those of the same call on the raw arrays (this is an identity of terms: the check is about operand order, method, axis/keepdims/dtype keywords and out plumbing, not about the numerics of the ufunc), result kind / shape / dtype are compared with NumPy on concrete arrays of the same dtype, out given as element / tensor / ndarray (incl. dtype= different from out.dtype, partial outs of two-output ufuncs) must be returned by identity and hold the result (NaN-taint on previous contents), operands unchanged.',
+        note='Trusted: symnp engine (object-dtype ufunc loops are the model of the numbers; dtype shadow reproduces NumPy casting rules). Memory sharing, asarray round trip, modf out plumbing and result types are concrete facts. One known finding (ProductSpaceElement as out of a NumPy ufunc call).',
+        ref='DESIGN.md section 4 C17'),
+})
 NOT_YET = {}
 
 
